@@ -1,7 +1,7 @@
 """C04 — caching is invisible: a call's outcome never depends on earlier calls."""
 import json, collections
 from .. import model, progs, tablelevel
-from ..world import world_from
+from ..world import world_from, World
 from . import resolve_common as R
 
 CLAIM = dict(
@@ -21,6 +21,16 @@ def gen_history_program(rng):
             d["body"] = "next"
     calls = prog["calls"]
     hist = [rng.choice(calls) for _ in range(rng.randint(8, 30))] if calls else []
+    if calls and rng.random() < 0.5:
+        # most-derived argument classes first: whatever their resolution leaves behind (per-position tables, candidate
+        # sets, remembered errors) is in place when the calls with their base classes follow
+        w = World(prog["spec"])
+        distinct = []
+        for c in calls:
+            if c not in distinct:
+                distinct.append(c)
+        distinct.sort(key=lambda c: -sum(len(w.classes[x].__mro__) for x in c["pos"]))
+        hist = distinct + hist[: max(0, len(hist) - len(distinct))]
     prog["history"] = hist
     return prog
 
